@@ -58,7 +58,7 @@ Definition plain_key (c : N) : option mkey :=
   end%N.
 Definition find_key (c : N) (a : chr) : option mkey :=
   match c with 102 => Some (Kf a) | 70 => Some (KF a) | 116 => Some (Kt a) | 84 => Some (KT a) | _ => None end%N.
-Definition is_find (c : N) : bool := match find_key c [] with Some _ => true | None => false end.
+Definition is_find (c : N) : bool := ((c =? 102) || (c =? 70) || (c =? 116) || (c =? 84))%N.
 
 (* one motion command off the pending keys: the count (vi_arg1), the key, what is left; None: not a motion of the model *)
 Definition parse_motion (ks : list N) : option (Z * mkey * list N) :=
